@@ -22,7 +22,7 @@ ASSUMPTIONS = ["float model: tyme accumulates tock by tock, due tymes accumulate
                "nested programs: a tock-0 DoDoer is modelled as transparent (that is C04's claim)"]
 PROBES = ["nested_program", "nondyadic_tock", "yield_smaller_than_tock", "yield_none", "float_and_rational_models_differ"]
 BOUNDS = dict(quick=dict(nodes=8, depth=3, steps=7), thorough=dict(nodes=14, depth=4, steps=12))
-TIERS = dict(quick=dict(cases=20000, wall=40.0), thorough=dict(cases=1200000, wall=420.0))
+TIERS = dict(quick=dict(cases=40000, wall=60.0), thorough=dict(cases=1200000, wall=420.0))
 
 
 def feat_for(tier, nested=True):
